@@ -226,6 +226,42 @@ Definition wms_map (tree : list wlayer) (req : list Z) (cb : option cbres) : wms
 Definition wms_log (o : wms_out) : list Z :=
   match o with W_ok rl _ => map (fun e : rentry => snd e) rl | _ => [] end.
 
+(* LayerRenderer.render: combined_layers (service/wms.py) over the render list with LimitedLayer.combined_layer
+   (layer.py) and the sources' own combined_layer.  A group = one layer object that is rendered (one upstream
+   request): the limited_to of its LimitedLayer wrapper and the sources it stands for.
+   compat cur s = the plain source that stands for `cur` combines with the plain source s.
+   A LimitedLayer never combines: with a plain neighbour its coverage differs from the neighbour's (None), with a
+   wrapped neighbour of equal coverage the wrapped source refuses the wrapper (isinstance(other, WMSSource));
+   a plain source refuses a wrapper for the same reason. *)
+Definition group := (option Z * list Z)%type.
+
+Fixpoint combine_from (compat : list Z -> Z -> bool) (cur : group) (rest : list (option Z * Z)) : list group :=
+  match rest with
+  | [] => [cur]
+  | (lim, s) :: r =>
+    match fst cur, lim with
+    | None, None =>
+      if compat (snd cur) s then combine_from compat (None, snd cur ++ [s]) r
+      else cur :: combine_from compat (None, [s]) r
+    | _, _ => cur :: combine_from compat (lim, [s]) r
+    end
+  end.
+
+Definition combine_entries (compat : list Z -> Z -> bool) (rl : list (option Z * Z)) : list group :=
+  match rl with [] => [] | (lim, s) :: r => combine_from compat (lim, [s]) r end.
+
+(* the (limited_to, source) pairs a list of groups is rendered and clipped with *)
+Definition expand_groups (gs : list group) : list (option Z * Z) :=
+  flat_map (fun g : group => map (fun s => (fst g, s)) (snd g)) gs.
+
+Definition is_none {A} (o : option A) : bool := match o with None => true | Some _ => false end.
+
+(* what every outcome of combined_layers satisfies (checked on the observed groups): every source is rendered
+   under its own limited_to, in order, and limited layers stay alone *)
+Definition groups_ok (rl : list (option Z * Z)) (gs : list group) : bool :=
+  list_eqb (pair_eqb (opt_eqb Z.eqb) Z.eqb) (expand_groups gs) rl
+  && forallb (fun g : group => is_none (fst g) || (Nat.eqb (length (snd g)) 1)) gs.
+
 (* WMSServer.featureinfo: qlayers = QUERY_LAYERS, layers = LAYERS (filter_actual_layers is called with
    request.params.layers); pt_in g = coverage g contains the query coordinate.  The result lists the
    info sources whose get_info reaches the wrapped layer. *)
